@@ -240,7 +240,7 @@ func lifeEpisode(work string, seed int64, f *fake) event {
 		return l.result()
 	}
 	if !settle() {
-		return event{"result": "inconclusive", "why": fmt.Sprintf("the rotation due after start-up (now-offset=%d) did not happen within 30 s", int64(now)-int64(off))}
+		return l.inconc(fmt.Sprintf("the rotation due after start-up (now-offset=%d) did not happen within 30 s", int64(now)-int64(off)))
 	}
 	if int64(now)-int64(off) > 3190 || now < off {
 		s.Close()
@@ -274,8 +274,34 @@ func lifeEpisode(work string, seed int64, f *fake) event {
 	}
 	l.counts["conflict_bans"]++
 
-	// ---- C01: refused datagrams change nothing
 	inWin := func(s int64) bool { return s >= int64(off) && s < int64(off)+4032 && s >= 0 }
+	// ---- C08 (server side): a device's paced or bunched re-sends that ARRIVE are recorded, all of them.
+	// (First, before anything else was sent from this address.) The record itself is the barrier: a datagram
+	// counts as not recorded only if its slot is still empty 15 s later while the server answers requests.
+	nb := 0
+	for k := 0; k < 40; k++ {
+		sl := int64(now) - 60 - int64(k)
+		if !inWin(sl) {
+			continue
+		}
+		p := uint64(3000 + k)
+		l.sendUDP(report(A, uint32(sl), p))
+		rep, ok := slotOf(A, uint32(sl))
+		for i := 0; i < 150 && !(ok && rep.PowerOutput == p); i++ {
+			time.Sleep(100 * time.Millisecond)
+			rep, ok = slotOf(A, uint32(sl))
+		}
+		if !(ok && rep.PowerOutput == p) {
+			if code, _, err := get("/api/v1/equipment"); err == nil && code == 200 {
+				l.bad("C08:delivered-retransmission-not-recorded: report %d of a burst of valid re-sends from one source address (slot now-%d, power %d) is not recorded 15 s after it was sent over loopback: slot holds %d", k, 60+k, p, rep.PowerOutput)
+			}
+			break
+		}
+		nb++
+	}
+	l.counts["c08_burst_recorded"] = nb
+
+	// ---- C01: refused datagrams change nothing
 	okSlot := int64(now) - 7
 	var refused []struct {
 		class string
@@ -319,7 +345,7 @@ func lifeEpisode(work string, seed int64, f *fake) event {
 			continue // a zero-length datagram cannot be awaited through the counter reliably
 		}
 		if !l.sendUDP(c.b) {
-			return event{"result": "inconclusive", "why": "datagram " + c.class + " was not taken off the socket within 2 s"}
+			return l.inconc("datagram " + c.class + " was not taken off the socket within 2 s")
 		}
 		l.counts["c01_refused_delivered"]++
 		if fp2 := l.fingerprint(); fp2 != fp {
@@ -335,7 +361,7 @@ func lifeEpisode(work string, seed int64, f *fake) event {
 		}
 		p := uint64(2000 + rng.Intn(5000))
 		if !l.sendUDP(report(A, uint32(sl), p)) {
-			return event{"result": "inconclusive", "why": "acceptable datagram was not taken off the socket within 2 s"}
+			return l.inconc("acceptable datagram was not taken off the socket within 2 s")
 		}
 		if rep, ok := slotOf(A, uint32(sl)); !ok || rep.PowerOutput != p {
 			l.bad("C01:acceptable-report-not-recorded: slot now%+d holds %d want %d (offset %d now %d)", d, rep.PowerOutput, p, off, now)
@@ -369,26 +395,6 @@ func lifeEpisode(work string, seed int64, f *fake) event {
 		l.bad("C02:over-capacity-not-banned: slot holds %d want 1", rep.PowerOutput)
 	}
 	l.counts["c02_sequences"] += 3
-
-	// ---- C08 (server side): a device's paced or bunched re-sends that ARRIVE are recorded, all of them
-	nb := 0
-	for k := 0; k < 40; k++ {
-		sl := int64(now) - 60 - int64(k)
-		if !inWin(sl) {
-			continue
-		}
-		p := uint64(3000 + k)
-		if !l.sendUDP(report(A, uint32(sl), p)) {
-			l.bad("C08:delivered-retransmission-not-processed: datagram %d of a burst from one source address was not taken off the socket and handled", k)
-			break
-		}
-		if rep, ok := slotOf(A, uint32(sl)); !ok || rep.PowerOutput != p {
-			l.bad("C08:delivered-retransmission-not-recorded: report %d of a burst of valid re-sends from one source address (slot now-%d) is not recorded: slot holds %d", k, 60+k, rep.PowerOutput)
-			break
-		}
-		nb++
-	}
-	l.counts["c08_burst_recorded"] = nb
 
 	// ---- C12: many idle / abandoned sync connections, then sync requests are still answered
 	{
@@ -497,7 +503,7 @@ func lifeEpisode(work string, seed int64, f *fake) event {
 	sn = s.VerifSnapshot(true)
 	raw, err := syncRaw(A.id)
 	if err != nil {
-		return event{"result": "inconclusive", "why": "raw sync failed: " + err.Error()}
+		return l.inconc("raw sync failed: " + err.Error())
 	}
 	rep, refusedReply, perr := refenc.ParseSyncReply(raw)
 	switch {
@@ -581,7 +587,7 @@ func lifeEpisode(work string, seed int64, f *fake) event {
 	for i := 0; i < nreq; i++ {
 		code, body, err := get("/api/v1/archive")
 		if err != nil {
-			return event{"result": "inconclusive", "why": "archive request failed: " + err.Error()}
+			return l.inconc("archive request failed: " + err.Error())
 		}
 		codes = append(codes, code)
 		if code == 200 && firstZip == nil {
@@ -670,6 +676,14 @@ func lifeEpisode(work string, seed int64, f *fake) event {
 		l.bad("C12:close-failed: %v", err)
 	}
 	return l.result()
+}
+
+// inconc: the episode cannot go on; what was already found is not thrown away.
+func (l *lifeRun) inconc(why string) event {
+	if len(l.problems) > 0 {
+		return l.result()
+	}
+	return event{"result": "inconclusive", "why": why}
 }
 
 func (l *lifeRun) result() event {
